@@ -34,6 +34,7 @@ class JsonTextModel:
             return o
         return NOTHANDLED
     m_strip = staticmethod(lambda ex, o: o)
+    m_encode = staticmethod(lambda ex, o, *a: o)
 
 
 def json_dumps(ex, v, **kw):
@@ -74,13 +75,16 @@ class WriteHeadUnit(Unit):
             for rp in [(i, o) for i in range(N + 1) for o in (False, True) if i < N or not o]:
                 for old in ('absent', 'valid'):
                     for via in ('write_head', 'close'):
-                        out.append((N, rp, old, via))
+                        for tmp in ('absent', 'stale'):
+                            out.append((N, rp, old, via, tmp))
         return out
 
     def run(self, shape, dec):
-        N, rp, old, via = shape
+        N, rp, old, via, tmp = shape
         ex = new_exec(dec, ROLL)
         fs = setup(ex)
+        if tmp == 'stale':          # an earlier save was stopped after writing the temporary file and before the rename (any content)
+            fs.plain['/state/head.tmp'] = Obj('jsontext', of=['stale-file', 12345])
         me, files = make_log(ex, fs, N, False, rp, rdonly=True)
         me.f['head'] = '/state/head'
         OLD = Obj('jsontext', of=['old-file', 7])
@@ -110,7 +114,7 @@ class WriteHeadUnit(Unit):
         new = fs.plain.get('/state/head')
         O('C14.save: the head file holds the new position after a completed save', isinstance(new, Obj) and new.cls == 'jsontext' and new is not OLD)
         O('C14.save: the temporary file is gone', '/state/head.tmp' not in fs.plain)
-        if isinstance(new, Obj) and new is not OLD:
+        if isinstance(new, Obj) and new.cls == 'jsontext' and new is not OLD:
             pos = new.f['of']
             idx, opened = rp
             O('C14.tell_spec: the saved position is a (file name, offset) pair', isinstance(pos, (tuple, list)) and len(pos) == 2)
